@@ -9,6 +9,9 @@
 -/
 import PolyVerif.Model.March
 import PolyVerif.Lemmas.MarchTableFacts
+import PolyVerif.Gen.MarchInterp
+import PolyVerif.Lemmas.RealScalar
+import Mathlib.Topology.Order.IntermediateValue
 import Mathlib.Tactic
 
 namespace PolyVerif
@@ -351,6 +354,171 @@ example : BoundaryOutside (fun q => decide (q = ((-1 : Int), (-1 : Int), (-1 : I
   simp only [decide_eq_false_iff_not]
   rintro rfl
   simp at hb
+
+/-! ## 3. Block storage: the cross-block corner fetch reads the global grid -/
+
+/-- global position of local sample `(x, y, z)` of block `b` -/
+def globalOf (b : Pt) (x y z : Int) : Pt :=
+  (b.1 * marchingSectionSize + x, b.2.1 * marchingSectionSize + y, b.2.2 * marchingSectionSize + z)
+
+/-- For every block (any sign of its coordinates), every cell of it (including the last index of one, two or
+    three axes) and every corner: what `marchFloat1BlockPosition` fetches — from this block or from the
+    neighbour at `neighbourIndex` — is the global grid's sample at `cell + cornerOffset`, and it is missing
+    (cell skipped) exactly when the block that owns that global position was never allocated. -/
+theorem blockFetch_eq_global {α : Type} (bl : Blocks α) (b : Pt) (x y z : Int)
+    (hx : 0 ≤ x ∧ x < marchingSectionSize) (hy : 0 ≤ y ∧ y < marchingSectionSize) (hz : 0 ≤ z ∧ z < marchingSectionSize)
+    (i : Nat) (hi : i < 8) :
+    fetchCorner bl b x y z i = globalAt bl (padd (globalOf b x y z) (cornerOff i)) := by
+  obtain ⟨bx, by', bz⟩ := b
+  simp only [marchingSectionSize] at hx hy hz
+  interval_cases i <;>
+  · simp only [fetchCorner, globalAt, chunkOf, cornerOff, ptOfRow, cubeDataBlockPositions, cubeDataIndexIncrements,
+      List.getD_cons_zero, List.getD_cons_succ, marchingSectionSize, neighbourIndex, padd, bindex, globalOf]
+    refine congrArg₂ Option.map ?_ (congrArg bl ?_)
+    · funext d; congr 1
+      split_ifs <;> omega
+    · simp only [Prod.mk.injEq]
+      refine ⟨?_, ?_, ?_⟩ <;> split_ifs <;> omega
+
+example : fetchCorner (fun b => if b = ((-1 : Int), (0 : Int), (3 : Int)) then some (fun i => i) else none) (-2, 0, 2) 99 5 99 2
+    = some 500 := by decide
+
+theorem mapM_eq_none_aux {α β : Type} (f : α → Option β) (l : List α) :
+    l.mapM f = none ↔ ∃ a ∈ l, f a = none := by
+  induction l with
+  | nil => simp
+  | cons a l ih =>
+    simp only [List.mapM_cons, List.mem_cons, exists_eq_or_imp]
+    cases h : f a <;> cases h2 : l.mapM f <;> simp_all
+
+theorem mapM_congr_aux {α β : Type} (f g : α → Option β) (l : List α) (h : ∀ a ∈ l, f a = g a) :
+    l.mapM f = l.mapM g := by
+  induction l with
+  | nil => simp
+  | cons a l ih =>
+    simp only [List.mapM_cons]
+    rw [h a (List.mem_cons_self), ih (fun x hx => h x (List.mem_cons_of_mem _ hx))]
+
+/-- the whole cell: all eight corners fetched, or skipped, exactly as the global grid says -/
+theorem fetchCell_eq_global {α : Type} (bl : Blocks α) (b : Pt) (x y z : Int)
+    (hx : 0 ≤ x ∧ x < marchingSectionSize) (hy : 0 ≤ y ∧ y < marchingSectionSize) (hz : 0 ≤ z ∧ z < marchingSectionSize) :
+    fetchCell bl b x y z = (List.range 8).mapM fun i => globalAt bl (padd (globalOf b x y z) (cornerOff i)) := by
+  unfold fetchCell
+  have : ∀ i ∈ List.range 8, fetchCorner bl b x y z i = globalAt bl (padd (globalOf b x y z) (cornerOff i)) :=
+    fun i hi => blockFetch_eq_global bl b x y z hx hy hz i (List.mem_range.mp hi)
+  exact mapM_congr_aux _ _ _ this
+
+/-- A cell is skipped only when a block it needs was never allocated; if every inside sample has the blocks of
+    its whole 3×3×3 lattice neighbourhood allocated (which `AddField`'s one-cell padding provides when the inside
+    region is strictly inside the domain, see `addField_allocates_neighbourhood`), a skipped cell has eight
+    outside corners — skipping it loses no triangle. -/
+theorem skipped_cells_outside {α : Type} (bl : Blocks α) (inside : Pt → Prop)
+    (hpad : ∀ q, inside q → ∀ d : Pt, -1 ≤ d.1 → d.1 ≤ 1 → -1 ≤ d.2.1 → d.2.1 ≤ 1 → -1 ≤ d.2.2 → d.2.2 ≤ 1 →
+      (bl (chunkOf (padd q d))).isSome)
+    (b : Pt) (x y z : Int)
+    (hx : 0 ≤ x ∧ x < marchingSectionSize) (hy : 0 ≤ y ∧ y < marchingSectionSize) (hz : 0 ≤ z ∧ z < marchingSectionSize)
+    (hskip : fetchCell bl b x y z = none) :
+    ∀ i, i < 8 → ¬ inside (padd (globalOf b x y z) (cornerOff i)) := by
+  intro i hi hin
+  rw [fetchCell_eq_global bl b x y z hx hy hz, mapM_eq_none_aux] at hskip
+  obtain ⟨j, hj, hnone⟩ := hskip
+  have hj8 : j < 8 := List.mem_range.mp hj
+  -- corner j = corner i + (off j − off i), a step in {-1,0,1}³
+  have hstep := hpad _ hin (padd (cornerOff j) ((-(cornerOff i).1), (-(cornerOff i).2.1), (-(cornerOff i).2.2)))
+  have hoff : ∀ k, k < 8 → (0 ≤ (cornerOff k).1 ∧ (cornerOff k).1 ≤ 1) ∧ (0 ≤ (cornerOff k).2.1 ∧ (cornerOff k).2.1 ≤ 1) ∧
+      (0 ≤ (cornerOff k).2.2 ∧ (cornerOff k).2.2 ≤ 1) := by decide
+  have oi := hoff i hi; have oj := hoff j hj8
+  have heq : padd (padd (globalOf b x y z) (cornerOff i))
+      (padd (cornerOff j) ((-(cornerOff i).1), (-(cornerOff i).2.1), (-(cornerOff i).2.2)))
+      = padd (globalOf b x y z) (cornerOff j) := by
+    simp only [padd, Prod.mk.injEq]; refine ⟨?_, ?_, ?_⟩ <;> ring
+  rw [heq] at hstep
+  have := hstep (by simp only [padd]; omega) (by simp only [padd]; omega) (by simp only [padd]; omega)
+    (by simp only [padd]; omega) (by simp only [padd]; omega) (by simp only [padd]; omega)
+  unfold globalAt at hnone
+  rw [Option.map_eq_none_iff] at hnone
+  rw [hnone] at this; simp at this
+
+/-- `AddField` side, one axis: `chunkSectionsInRange(min, max)` allocates every chunk from `⌊min/100⌋` to
+    `⌊max/100⌋` (inclusive — including the chunk of the exclusive upper bound `max`), so every position in
+    `[min, max]` has its chunk allocated; and each sampled position `X ∈ [min, max)` is written exactly once,
+    by the chunk `c = ⌊X/100⌋`, into local index `X − 100c = X mod 100` (the loop bounds
+    `max(100c, min) ≤ X < min(100c + 100, max)` of `addFloat1Range`). -/
+theorem addField_axis_partition (mn mx X : Int) :
+    (mn ≤ X → X ≤ mx → mn / marchingSectionSize ≤ X / marchingSectionSize ∧ X / marchingSectionSize ≤ mx / marchingSectionSize) ∧
+    (mn ≤ X → X < mx →
+      let c := X / marchingSectionSize
+      max (c * marchingSectionSize) mn ≤ X ∧ X < min (c * marchingSectionSize + marchingSectionSize) mx ∧
+      X - c * marchingSectionSize = X % marchingSectionSize ∧ 0 ≤ X % marchingSectionSize ∧ X % marchingSectionSize < marchingSectionSize) ∧
+    (∀ c' : Int, max (c' * marchingSectionSize) mn ≤ X → X < min (c' * marchingSectionSize + marchingSectionSize) mx →
+      c' = X / marchingSectionSize) := by
+  simp only [marchingSectionSize]
+  refine ⟨fun h1 h2 => by omega, fun h1 h2 => by omega, fun c' h1 h2 => by omega⟩
+
+/-- consequence for the padding: with sample bounds `[mn, mx)` per axis, every lattice point within one step of
+    a point of `[mn+1, mx-1]` lies in `[mn, mx]`, whose chunks are all allocated -/
+theorem addField_allocates_neighbourhood (mn mx X d : Int) (h1 : mn + 1 ≤ X) (h2 : X ≤ mx - 1) (hd : -1 ≤ d ∧ d ≤ 1) :
+    mn / marchingSectionSize ≤ (X + d) / marchingSectionSize ∧ (X + d) / marchingSectionSize ≤ mx / marchingSectionSize := by
+  simp only [marchingSectionSize]; omega
+
+/-! ## 4. Interpolation: the vertex lies on its lattice edge, within one cell of the isosurface -/
+
+open Gen.marching in
+/-- the interpolation parameter of `interpolateVerts` lies in `[0, 1]` whenever the two corner values are on
+    different sides of the cutoff (inside = `value < cutoff`), whichever of the two corners is the inside one -/
+theorem interp_between (fa fb c : ℝ) :
+    (fa < c → c ≤ fb → 0 < interpolationValueFromCutoff fa fb c ∧ interpolationValueFromCutoff fa fb c ≤ 1) ∧
+    (fb < c → c ≤ fa → 0 ≤ interpolationValueFromCutoff fa fb c ∧ interpolationValueFromCutoff fa fb c < 1) := by
+  unfold interpolationValueFromCutoff
+  constructor
+  · intro h1 h2
+    have hd : 0 < fb - fa := by linarith
+    exact ⟨div_pos (by linarith) hd, (div_le_one hd).mpr (by linarith)⟩
+  · intro h1 h2
+    have hd : fb - fa < 0 := by linarith
+    constructor
+    · exact div_nonneg_of_nonpos (by linarith) hd.le
+    · rw [div_lt_one_of_neg hd]; linarith
+
+example : (1 : ℝ) < 2 ∧ (2 : ℝ) ≤ 5 := by norm_num
+
+open Gen.marching in
+/-- `interpolateVerts` returns the point `v1 + t·(v2 − v1)` of the edge, coordinate by coordinate -/
+theorem interp_on_segment (v1 v2 : V3 ℝ) (fa fb c : ℝ) :
+    let t := interpolationValueFromCutoff fa fb c
+    (interpolateVerts v1 v2 fa fb c).x = v1.x + t * (v2.x - v1.x) ∧
+    (interpolateVerts v1 v2 fa fb c).y = v1.y + t * (v2.y - v1.y) ∧
+    (interpolateVerts v1 v2 fa fb c).z = v1.z + t * (v2.z - v1.z) := by
+  simp only [interpolateVerts, V3.Add, V3.Scale, V3.Sub]
+  refine ⟨?_, ?_, ?_⟩ <;> ring
+
+open Gen.marching in
+/-- the two cells that see one lattice edge from opposite ends compute the same point (over ℝ): this is what
+    identifying a vertex with its lattice edge means -/
+theorem interp_symmetric (v1 v2 : V3 ℝ) (fa fb c : ℝ) (h : fa ≠ fb) :
+    interpolateVerts v1 v2 fa fb c = interpolateVerts v2 v1 fb fa c := by
+  have h1 : fb - fa ≠ 0 := sub_ne_zero.mpr (Ne.symm h)
+  have h2 : fa - fb ≠ 0 := sub_ne_zero.mpr h
+  simp only [interpolateVerts, interpolationValueFromCutoff, V3.Add, V3.Scale, V3.Sub, V3.mk.injEq]
+  refine ⟨?_, ?_, ?_⟩ <;> (field_simp; ring)
+
+/-- intermediate value theorem along the edge: if the field, restricted to the edge `τ ↦ a + τ(b − a)`,
+    is continuous and its end values are on different sides of the cutoff, some point of the edge is ON the
+    isosurface, and every point of the edge — in particular the emitted vertex, by `interp_between` and
+    `interp_on_segment` — is within one edge length (`|t − τ| ≤ 1` in edge units = one grid cell) of it -/
+theorem vertex_near_isosurface (f : ℝ → ℝ) (hf : ContinuousOn f (Set.Icc 0 1)) (c t : ℝ)
+    (ht : 0 ≤ t ∧ t ≤ 1) (h : (f 0 < c ∧ c ≤ f 1) ∨ (f 1 < c ∧ c ≤ f 0)) :
+    ∃ τ, 0 ≤ τ ∧ τ ≤ 1 ∧ f τ = c ∧ |t - τ| ≤ 1 := by
+  have key : ∃ τ ∈ Set.Icc (0:ℝ) 1, f τ = c := by
+    rcases h with h | h
+    · exact intermediate_value_Icc (by norm_num) hf ⟨h.1.le, h.2⟩
+    · exact intermediate_value_Icc' (by norm_num) hf ⟨h.1.le, h.2⟩
+  obtain ⟨τ, hτ, hfc⟩ := key
+  refine ⟨τ, hτ.1, hτ.2, hfc, ?_⟩
+  rw [abs_le]; constructor <;> linarith [hτ.1, hτ.2, ht.1, ht.2]
+
+example : ContinuousOn (fun τ : ℝ => 3 * τ - 1) (Set.Icc 0 1) ∧ ((fun τ : ℝ => 3 * τ - 1) 0 < 0 ∧ (0:ℝ) ≤ (fun τ : ℝ => 3 * τ - 1) 1) := by
+  refine ⟨by fun_prop, by norm_num⟩
 
 end C09
 end PolyVerif
